@@ -5,9 +5,10 @@ ROOT = os.path.dirname(os.path.dirname(os.path.abspath(__file__)))
 sys.path.insert(0, os.path.join(ROOT, 'tools'))
 props = [json.loads(l)['id'] for l in open(os.path.join(ROOT, 'properties.jsonl'))]
 checks, na = [], []
+registered = open(os.path.join(ROOT, 'tools', 'registered.txt')).read().split()
 for p in props:
     f = os.path.join(ROOT, 'tools', 'props', p.lower() + '.py')
-    if not (os.path.exists(f) and os.path.exists(os.path.join(ROOT, 'coq', 'props', p + '_Props.v'))):
+    if p not in registered or not (os.path.exists(f) and os.path.exists(os.path.join(ROOT, 'coq', 'props', p + '_Props.v'))):
         na.append({'property_id': p, 'reason': 'check not built yet (see DESIGN.md section 10 build order); the technique applies, nothing is claimed until the theorems and the correspondence exist'})
         continue
     m = importlib.import_module('props.' + p.lower())
